@@ -23,7 +23,7 @@ PROP = "C15"
 LEVEL = "model_checking"
 RULE = (
     "(A) exhaustive enumeration of parent/child declarations (parent class-keyword subsets x child override subsets, sizes "
-    "<=1x<=2 and <=2x<=1 over an 11-keyword menu, x 5 property moves x chain length 2-3); every declaration is executed and the "
+    "<=1x<=2 and <=2x<=1 over an 11-keyword menu, x 5 property moves x chain length 2, 3 and 3-with-an-override-in-the-middle-class); every declaration is executed and the "
     "child is compared with the single flat class (verdict+result vector over 30 probes, serialize_json), instances checked "
     "with isinstance, the parent's full observation compared before/after definition and use of the child. (B) explicit-state "
     "BFS to depth 3 over {define grandchild, validate parent, validate child, reconfigure child} with the parent's observation "
@@ -154,14 +154,15 @@ def check_pair(st, pchoice, cchoice, rank, only=None):
     before = observe(parent)
     st.add("states")
     for move in MOVES:
-        for chain in (2, 3):
+        for chain in (2, 3, 4):
             if only and only != (move, chain):
                 continue
             label = {"parent_kw": [(k, i) for k, i in pchoice], "child_kw": [(k, i) for k, i in cchoice], "move": move, "chain": chain}
             layers = [PARENT_PROPS]
             base = parent
-            if chain == 3:
-                mid_props = [("m", "Null()", False, None)]
+            if chain >= 3:
+                # chain 4 = three levels where the MIDDLE class overrides an inherited property the child does not re-declare
+                mid_props = [("m", "Null()", False, None)] + ([("a", "String()", False, None), ("b", "String()", True, None)] if chain == 4 else [])
                 base = make_class("Mid", (parent,), mid_props, ())
                 layers.append(mid_props)
             child = make_class("Chi", (base,), MOVES[move], cchoice)
@@ -199,7 +200,7 @@ def check_pair(st, pchoice, cchoice, rank, only=None):
         culprit = None
         if only is None:
             for move in MOVES:
-                for chain in (2, 3):
+                for chain in (2, 3, 4):
                     sub = runner.Stats()
                     check_pair(sub, pchoice, cchoice, rank, only=(move, chain))
                     if any(k.startswith("parent-changed") for k in sub.violations):
@@ -348,7 +349,7 @@ def plan(tier, seed):
     nops = len(history_ops())
     hd = range(len(HIST_DECLS)) if tier == "thorough" else range(3)
     items += [("hist", d, f, depth) for d in hd for f in range(nops)]
-    return {"items": items, "meta": {"declarations": len(decls) * len(MOVES) * 2, "keyword_menu": KWLIST, "moves": sorted(MOVES), "chains": [2, 3], "history_depth": depth, "history_ops": nops, "probes": len(PROBES), "exhaustive": tier == "quick" or True}}
+    return {"items": items, "meta": {"declarations": len(decls) * len(MOVES) * 2, "keyword_menu": KWLIST, "moves": sorted(MOVES), "chains": [2, 3, "3 with override in the middle class"], "history_depth": depth, "history_ops": nops, "probes": len(PROBES), "exhaustive": tier == "quick" or True}}
 
 
 def work(item):
@@ -357,7 +358,7 @@ def work(item):
         for n, (pc, cc) in enumerate(item[1]):
             check_pair(st, pc, cc, rank=len(pc) + len(cc))
             if n == 0:
-                st.sample({"parent_kw": pc, "child_kw": cc, "moves": sorted(MOVES), "chains": [2, 3]})
+                st.sample({"parent_kw": pc, "child_kw": cc, "moves": sorted(MOVES), "chains": [2, 3, "3 with override in the middle class"]})
     else:
         run_history(st, item[1], item[2], item[3])
     return st
